@@ -2275,7 +2275,7 @@ def _oracle_one(c, out):
             text = out["text_again"] if name == "parsed_again" else out["text"]
             if isinstance(out[name], str):
                 return ("text-rejected", f"printed text {text!r} is rejected by the parser{_WHICH[name]}: {out.get('msg')}")
-            msg = _same_operator(out["orig"], out[name], 0.0, 1e-12)
+            msg = _same_operator(out["orig"], out[name], 0.0, 4e-16)  # repr(float) round-trips exactly: two ulps of slack only
             if msg:
                 return ("text-matrix", f"str -> parse changed the operator {text!r}{_WHICH[name]}: {msg}")
     elif k == "ev":
